@@ -58,7 +58,12 @@ fn quiet<R>(f: impl FnOnce() -> R) -> Result<R, String> {
 }
 
 pub fn probe_one<T: Resource>(w: &World) -> Borrow {
-    if !w.has_value::<T>() {
+    // (the presence query is only the instrument here: if it does not answer, ask by id)
+    let present = match quiet(|| w.has_value::<T>()) {
+        Ok(p) => p,
+        Err(_) => w.has_value_raw(ResourceId::new::<T>()),
+    };
+    if !present {
         return Borrow::Absent;
     }
     if quiet(|| w.try_fetch_mut::<T>().is_some()).is_ok() {
